@@ -1,6 +1,7 @@
 // polygon: re-reads /repo's package osm with go/ast and emits coq/gen/GenPolygon.v:
 //
 //   - the three condition constants (conditionAll / conditionWhitelist / conditionBlacklist),
+//
 //   - the rule table exactly as written in the source (source order, values in source order,
 //     i.e. BEFORE init() sorts them).  Three ways of writing the table are understood, tried
 //     in this order (poly_table_source says which one was used):
@@ -12,6 +13,7 @@
 //     []polyCondition{{Key: ..., Condition: ..., Values: []string{...}}, ...}.
 //     JSON is decoded through the json tags of the polyCondition struct, the way encoding/json
 //     fills []polyCondition.  Anything else is a translator failure (= broken obligation).
+//
 //   - the literals inside Way.Polygon and Relation.Polygon: string literals (and
 //     package-level string constants/variables referred to) of the body itself, those of the
 //     same-package functions/methods it calls (by name, transitively), and the minimum number of
@@ -19,6 +21,8 @@
 //     n := len(..)).  When a function is not found or the length test has another shape the
 //     corresponding definition says so (found = false / None) and GenOk has nothing to check:
 //     the behaviour is then tied by correspondence only.
+//
+//   - tag.go: the keys of the UninterestingTags map literal that are mapped to true.
 //
 // Nothing is executed: the run-time table (after init) is dumped by the harness through the
 // verif hook and compared in Coq with [init_table] applied to this table (C18/Check.v).
@@ -546,6 +550,30 @@ func main() {
 		rl = w.collect(fd)
 	}
 
+	// tag.go: the keys of UninterestingTags that are mapped to true
+	var unint []string
+	ucl, ok := w.varExpr["UninterestingTags"].(*ast.CompositeLit)
+	if !ok {
+		fail("UninterestingTags is not initialised with a map literal")
+	}
+	for i, el := range ucl.Elts {
+		kv, ok := el.(*ast.KeyValueExpr)
+		if !ok {
+			fail("UninterestingTags element %d is not key: value", i)
+		}
+		k, ok := w.str(kv.Key, 0)
+		if !ok {
+			fail("UninterestingTags element %d: the key is not a string constant", i)
+		}
+		switch exprString(kv.Value) {
+		case "true":
+			unint = addUnique(unint, k)
+		case "false":
+		default:
+			fail("UninterestingTags[%q] is neither true nor false", k)
+		}
+	}
+
 	var b bytes.Buffer
 	fmt.Fprintf(&b, "(* GENERATED by /verif/translator/cmd/polygon from /repo (package osm) — do not edit.\n")
 	fmt.Fprintf(&b, "   rule table: route %s, variable %s at %s, decoded through the json tags of polyCondition\n", source, jsonVar, w.varPos[jsonVar])
@@ -579,6 +607,8 @@ func main() {
 	}
 	emitLits("lit_way", "Way.Polygon", wl)
 	emitLits("lit_rel", "Relation.Polygon", rl)
+	fmt.Fprintf(&b, "(* tag.go: keys of UninterestingTags mapped to true, source order (%s) *)\n", w.varPos["UninterestingTags"])
+	fmt.Fprintf(&b, "Definition uninteresting_tags : list string := %s.\n", coqStrings(unint))
 	if err := tr.Emit(filepath.Join(out, "GenPolygon.v"), b.Bytes()); err != nil {
 		fail("%v", err)
 	}
